@@ -152,7 +152,7 @@ class SymEval:
             if head == self.selfname and len(parts) == 1 and self.cls is not None and self.inline_props:
                 m = self.prog.find_method(self.cls, parts[0])
                 if m is not None and m.is_property and not m.is_abstract and self.depth < 4:
-                    r = self._inline(m, [self.env[head]], {}, n)
+                    r = self._inline(m, [self.env.get(head, S.sym(head))], {}, n)
                     if r is not None:
                         return r
             base = self.env.get(head)
@@ -594,16 +594,45 @@ class SymEval:
         return bool(items) and all(isinstance(i, ast.Slice) or (isinstance(i, ast.Constant) and (i.value is Ellipsis or i.value is None)) for i in items) \
             and (isinstance(sl, ast.Tuple) or isinstance(sl, ast.Slice))
 
+    _WHOLE_VIEW_METHODS = ("view", "reshape", "ravel", "squeeze", "transpose", "swapaxes")
+    _WHOLE_VIEW_ATTRS = ("T", "real", "imag", "flat")
+
+    def _whole_view_of(self, value):
+        """(base name, kind) when the expression is another name for (all of) a named array: the name itself, or a
+        re-interpretation that shares its memory (x.view(t), x.reshape(s), x.ravel(), x.T, x.real ...)"""
+        wv = self.__dict__.get("_wviews", {})
+        base, kind = None, None
+        if isinstance(value, ast.Name):
+            base, kind = value.id, "name"
+        elif isinstance(value, ast.Call) and isinstance(value.func, ast.Attribute) and isinstance(value.func.value, ast.Name) \
+                and value.func.attr in self._WHOLE_VIEW_METHODS:
+            base, kind = value.func.value.id, "." + value.func.attr
+        elif isinstance(value, ast.Attribute) and isinstance(value.value, ast.Name) and value.attr in self._WHOLE_VIEW_ATTRS:
+            base, kind = value.value.id, "." + value.attr
+        if base is None:
+            return None
+        if base in wv:
+            b2, k2 = wv[base]
+            base, kind = b2, (kind if kind != "name" else k2)
+        return base, kind
+
     def s_Assign(self, st):
         v = self.expr(st.value)
         views = self.__dict__.setdefault("_views", {})
+        wviews = self.__dict__.setdefault("_wviews", {})
+        whole = self._whole_view_of(st.value) if len(st.targets) == 1 and isinstance(st.targets[0], ast.Name) else None
         for t in st.targets:
             for nm in [x.id for x in ast.walk(t) if isinstance(x, ast.Name) and isinstance(x.ctx, ast.Store)]:
                 # a re-bound name is no longer a view, and views of it are views of the old object
                 views.pop(nm, None)
                 for k_ in [k_ for k_, (b_, _) in views.items() if b_ == nm]:
                     views.pop(k_, None)
+                wviews.pop(nm, None)
+                for k_ in [k_ for k_, (b_, _) in wviews.items() if b_ == nm]:
+                    wviews.pop(k_, None)
             self.assign_target(t, v)
+        if whole is not None and whole[0] != st.targets[0].id:
+            wviews[st.targets[0].id] = whole
         if (len(st.targets) == 1 and isinstance(st.targets[0], ast.Name) and isinstance(st.value, ast.Subscript) and isinstance(st.value.value, ast.Name)
                 and self._basic_index(st.value.slice) and st.targets[0].id != st.value.value.id):
             views[st.targets[0].id] = (st.value.value.id, st.value.slice)
@@ -641,6 +670,15 @@ class SymEval:
             return
         cur = self.expr(_load(st.target))
         v = self.binop(st.op, cur, self.expr(st.value))
+        wviews = self.__dict__.get("_wviews", {})
+        if isinstance(st.target, ast.Name) and st.target.id in wviews and wviews[st.target.id][1] != "name":
+            # t = x.view(np.float64) ; t *= t   rewrites x's memory through the re-interpretation
+            base, kind = wviews[st.target.id]
+            keep = dict(wviews)
+            self.env[base] = S.call("updated_through", self.env.get(base, S.sym(base)), S.lift(kind), v)
+            self.assign_target(st.target, v)
+            self.__dict__["_wviews"] = keep
+            return
         self.assign_target(st.target, v)
 
     def s_Expr(self, st):
